@@ -197,7 +197,11 @@ func main() {
 		if d.Level == "" {
 			d.Level = "exploration"
 		}
-		b, _ := json.Marshal(map[string]any{"flavor": p.Flavor(), "runs_quick": p.Runs("quick"), "runs_thorough": p.Runs("thorough"),
+		hang := 20
+		if h, ok := p.(interface{ HangSeconds() int }); ok {
+			hang = h.HangSeconds()
+		}
+		b, _ := json.Marshal(map[string]any{"hang_seconds": hang, "flavor": p.Flavor(), "runs_quick": p.Runs("quick"), "runs_thorough": p.Runs("thorough"),
 			"rule": d.Rule, "level": d.Level, "assumptions": d.Assumptions, "real_vs_stub": d.RealVsStub})
 		fmt.Println(string(b))
 	case "gen":
